@@ -12,9 +12,11 @@ class GenericMachine(StateMachine):
     """A machine built from a description: parents[i] = parent index or None; trans = [(name, [sources], dest)];
     handlers = {("enter"|"leave", state) | ("called", name): [requested transition names]}."""
 
-    def __init__(self, parents, trans, handlers, init):
+    def __init__(self, parents, trans, handlers, init, one_shot=()):
         super().__init__()
         self.elog = []
+        self.one_shot = set(one_shot)
+        self.spent = set()
         self.states = []
         chain = set()
         s = init
@@ -25,15 +27,23 @@ class GenericMachine(StateMachine):
             self.states.append(State(i, f"S{i}", parent=self.states[p] if p is not None else None, initial=i in chain))
         self._current_state = self.states[init]
         self._transitions = [Transition(n, [self.states[x] for x in srcs], self.states[d]) for n, srcs, d in trans]
+        # three callbacks per event, in registration order: record, make the requests, record again
         for i, st in enumerate(self.states):
-            st.events.enter.register(lambda _d, i=i: self._event(("enter", i)))
-            st.events.leave.register(lambda _d, i=i: self._event(("leave", i)))
+            for kind, ev in (("enter", st.events.enter), ("leave", st.events.leave)):
+                ev.register(lambda _d, k=(kind, i): self.elog.append(k))
+                ev.register(lambda _d, k=(kind, i): self._requests(k))
+                ev.register(lambda _d, k=("post_" + kind, i): self.elog.append(k))
         for tr in self._transitions:
-            tr.events.called.register(lambda _d, n=tr.name: self._event(("called", n)))
+            tr.events.called.register(lambda _d, k=("called", tr.name): self.elog.append(k))
+            tr.events.called.register(lambda _d, k=("called", tr.name): self._requests(k))
+            tr.events.called.register(lambda _d, k=("post_called", tr.name): self.elog.append(k))
         self.handlers = handlers
 
-    def _event(self, key):
-        self.elog.append(key)
+    def _requests(self, key):
+        if key in self.one_shot:
+            if key in self.spent:
+                return
+            self.spent.add(key)
         for name in self.handlers.get(key, []):
             self._perform_transition(name)
 
@@ -44,6 +54,12 @@ def evt_lit(key):
         return f"(Enter {x})"
     if kind == "leave":
         return f"(Leave {x})"
+    if kind == "post_enter":
+        return f"(PostEnter {x})"
+    if kind == "post_leave":
+        return f"(PostLeave {x})"
+    if kind == "post_called":
+        return f"(PostCalled {L.string(x)})"
     return f"(Called {L.string(x)})"
 
 
@@ -57,15 +73,16 @@ def machine_lit(parents, trans):
     return "{| m_parent := %s; m_trans := %s |}" % (ps, ts)
 
 
-def case_lit(parents, trans, handlers, init, reqs, obs):
+def case_lit(parents, trans, handlers, init, reqs, obs, one_shot=()):
     hs = "[" + ";".join(f"({evt_lit(k)}, [{';'.join(L.string(n) for n in v)}])" for k, v in handlers.items()) + "]"
-    return ("{| k_machine := %s; k_handlers := %s; k_init := %d; k_requests := [%s]; k_cur := %d; k_active := [%s]; k_log := [%s]; k_raised := [%s] |}"
-            % (machine_lit(parents, trans), hs, init, ";".join(L.string(r) for r in reqs), obs["cur"], ";".join(L.bool_(b) for b in obs["active"]),
+    os_ = "[" + ";".join(evt_lit(k) for k in one_shot) + "]"
+    return ("{| k_machine := %s; k_handlers := %s; k_one_shot := %s; k_init := %d; k_requests := [%s]; k_cur := %d; k_active := [%s]; k_log := [%s]; k_raised := [%s] |}"
+            % (machine_lit(parents, trans), hs, os_, init, ";".join(L.string(r) for r in reqs), obs["cur"], ";".join(L.bool_(b) for b in obs["active"]),
                ";".join(evt_lit(e) for e in obs["log"]), ";".join(L.bool_(b) for b in obs["raised"])))
 
 
-def observe(parents, trans, handlers, init, reqs):
-    m = GenericMachine(parents, trans, handlers, init)
+def observe(parents, trans, handlers, init, reqs, one_shot=()):
+    m = GenericMachine(parents, trans, handlers, init, one_shot)
     raised = []
     for r in reqs:
         try:
@@ -156,18 +173,31 @@ def gen_cases(rnd, tier):
             handlers = rand_handlers(rnd, parents, names, allow_leave=rnd.random() < 0.3)
         init = rnd.randrange(len(parents))
         reqs = [rnd.choice(names + ["nosuch"]) if rnd.random() < 0.95 else "nosuch" for _ in range(rnd.randint(1, 20))]
-        cases.append((parents, trans, handlers, init, reqs))
+        one_shot = [k for k in handlers if rnd.random() < 0.5]
+        cases.append((parents, trans, handlers, init, reqs, one_shot))
+    # handler cycles that come back to a state whose event is still being dispatched (one-shot handlers end them)
+    for _ in range(40 if tier == "quick" else 300):
+        n = rnd.randint(2, 4)
+        parents = [None] * n
+        trans = [(f"g{i}", [i], (i + 1) % n) for i in range(n)]
+        handlers = {("enter", (i + 1) % n): [f"g{(i + 1) % n}"] for i in range(n)}
+        keys = list(handlers)
+        one_shot = keys if rnd.random() < 0.5 else keys[: rnd.randint(1, len(keys))]
+        if rnd.random() < 0.5:
+            handlers[("called", "g0")] = ["g1"] if n > 1 else []
+            one_shot = [*one_shot, ("called", "g0")]
+        cases.append((parents, trans, handlers, 0, ["g0"] + [rnd.choice([t[0] for t in trans]) for _ in range(rnd.randint(0, 4))], one_shot))
     # deep chains: a grandchild moving to its uncle, cousin, root
     parents = [None, 0, 1, 0, 3, None]
     trans = [("a", [2], 3), ("b", [3], 2), ("c", [2], 4), ("d", [4], 5), ("e", [5], 2), ("f", [2, 4], 0), ("g", [0], 4)]
     for reqs in (["a", "b", "c", "d", "e"], ["c", "f", "g", "d", "e", "a"], ["f", "g", "d"]):
-        cases.append((parents, trans, {}, 2, reqs))
+        cases.append((parents, trans, {}, 2, reqs, []))
     # the shipped machines with their own handler programs
     for name, parents, trans, init, h in shipped_machines():
         tnames = sorted({t[0] for t in trans})
         for _ in range(6 if tier == "quick" else 40):
             reqs = (["start"] if name.startswith("control") else []) + [rnd.choice(tnames) for _ in range(rnd.randint(1, 15))]
-            cases.append((parents, trans, h, init, reqs))
+            cases.append((parents, trans, h, init, reqs, []))
     return cases
 
 
@@ -177,8 +207,9 @@ HEADER = "From SG Require Import Base.Prelude Model.StateMachine Run.C18Run.\nOp
 def evaluate(cases, prefix, shard=250):
     lits = []
     for c in cases:
-        obs = observe(*c)
-        lits.append(None if obs is None else case_lit(*c, obs))
+        parents, trans, handlers, init, reqs, one_shot = c
+        obs = observe(parents, trans, handlers, init, reqs, one_shot)
+        lits.append(None if obs is None else case_lit(parents, trans, handlers, init, reqs, obs, one_shot))
     idx = [i for i, x in enumerate(lits) if x is not None]
     shards, maps = [], []
     for s in range(0, len(idx), shard):
@@ -254,7 +285,7 @@ KNOWN = {
     "C18-concurrent": (witness_concurrent, "_perform_transition is not atomic: two threads both allowed from state 0 run to completion, state 0 fires leave twice / two states report active"),
 }
 
-SPEC_CODES = {30: "allowed/disallowed verdict differs from the transition table", 31: "an allowed request did not reach exactly its destination",
+SPEC_CODES = {34: "a callback registered on an event was not called exactly once per firing", 30: "allowed/disallowed verdict differs from the transition table", 31: "an allowed request did not reach exactly its destination",
               32: "the states reporting active are not exactly the current state and its ancestors",
               33: "leave/enter/called events are not those of the states exited/entered, once each"}
 MODEL_CODES = {10: "current state differs from the model", 11: "active flags differ from the model", 12: "event log differs from the model", 13: "raised/returned verdicts differ from the model"}
